@@ -734,9 +734,32 @@ def check_copy_ops(rep, prog, clsname, rule, floor_note=''):
                 for a, b in (pair, pair[::-1]):
                     tv = ex.var_of(a)
                     if tv in fields:
-                        for s2 in b.walk():
+                        for s2 in [b.strip_all()] + list(b.walk()):
                             if s2.k == 'MemberExpr' and s2.decl_id == tv and s2.c and ex.var_of(s2.c[0]) == pid:
                                 copied.add(tv)
+                            # copy-and-swap through a temporary:  T tmp(v.f); f.swap(tmp)   /   Cls tmp(v); f.swap(tmp.f)
+                            lv = None
+                            if s2.k == 'DeclRefExpr' and s2.decl is not None and s2.decl.get('kind') == 'local':
+                                lv = s2.decl_id
+                            if s2.k == 'MemberExpr' and s2.decl_id == tv and s2.c and ex.var_of(s2.c[0]) is not None and \
+                                    prog.vars[ex.var_of(s2.c[0])]['kind'] == 'local':
+                                lv = ex.var_of(s2.c[0])
+                            if lv is not None:
+                                ld = ex.unique_def(fn, lv)
+                                if ld is not None:
+                                    for s3 in [ld.strip_all()] + list(ld.walk()):
+                                        if (s3.k == 'MemberExpr' and s3.decl_id == tv and s3.c and ex.var_of(s3.c[0]) == pid) or \
+                                                (s3.k == 'DeclRefExpr' and s3.decl_id == pid):
+                                            copied.add(tv)
+        if not fr.get('ctor'):
+            # an assignment operator returns a reference to *this: returning by value makes `(x = y) += z` and `(x = y).clear()` act on a copy
+            rt = prog.type(fn.j.get('ret')) or {}
+            whatr = 'assignment operator returns a reference to the assigned object'
+            if rt.get('ref') or (rt.get('canon') or rt.get('s') or '') == 'void':
+                rep.ok(rule, fn.body, fn, whatr, rt.get('s') or 'reference')
+            else:
+                rep.violation(rule, fn.body or fn, fn, whatr, 'returns `%s` by value: an operation applied to the result of the assignment ((x = y) += z, (x = y).clear()) '
+                              'acts on a temporary copy and is lost' % (rt.get('s') or '?'), key='%s|%s|by-value-return' % (rule, fn.g))
         what = '%s copies every data member of its argument' % ('copy/move constructor' if fr.get('ctor') else 'assignment operator')
         missing = [prog.vars[f]['name'] for f in fields if f not in copied]
         if missing:
